@@ -429,3 +429,64 @@ func NearVariant(r *rand.Rand, s string, others ...string) string {
 	}
 	return s + "/"
 }
+
+// blockMarker only exists to be found in goroutine dumps.
+//
+//go:noinline
+func blockMarker(fn func()) { fn() }
+
+var parkedStates = []string{"chan send", "chan receive", "select", "semacquire", "sync.Mutex.Lock", "sync.RWMutex", "sync.Cond.Wait", "sync.WaitGroup.Wait"}
+
+// markerGoroutine returns the header state and the first frames of the goroutine that is inside blockMarker.
+func markerGoroutine() (string, string) {
+	buf := make([]byte, 4<<20)
+	buf = buf[:runtime.Stack(buf, true)]
+	for _, g := range strings.Split(string(buf), "\n\n") {
+		if !strings.Contains(g, "props.blockMarker") {
+			continue
+		}
+		lines := strings.Split(g, "\n")
+		state := lines[0]
+		if i := strings.Index(state, "["); i >= 0 {
+			state = strings.TrimSuffix(strings.SplitN(state[i+1:], ",", 2)[0], "]:")
+		}
+		top := strings.Join(lines[1:min(len(lines), 7)], "\n")
+		return state, top
+	}
+	return "", ""
+}
+
+// CallReturns runs fn on its own goroutine. It reports returned=true when fn came back. When fn is still running after
+// the grace period and its goroutine is parked on a channel, semaphore or lock with the same frames in two samples taken
+// five seconds apart, it reports blocked (with the state and frames); anything else that has not finished is "slow"
+// (returned=false, blocked=""), which callers treat as inconclusive. The decision rests on the goroutine's scheduler
+// state, not on the time alone.
+func CallReturns(fn func(), grace time.Duration) (returned bool, blocked string) {
+	done := make(chan struct{})
+	go func() {
+		defer close(done)
+		blockMarker(fn)
+	}()
+	select {
+	case <-done:
+		return true, ""
+	case <-time.After(grace):
+	}
+	s1, top1 := markerGoroutine()
+	select {
+	case <-done:
+		return true, ""
+	case <-time.After(5 * time.Second):
+	}
+	s2, top2 := markerGoroutine()
+	parked := false
+	for _, p := range parkedStates {
+		if strings.HasPrefix(s2, p) {
+			parked = true
+		}
+	}
+	if parked && s1 == s2 && top1 == top2 {
+		return false, s2 + "\n" + top2
+	}
+	return false, ""
+}
